@@ -161,7 +161,9 @@ class Ctx:
             "wall_s": round(time.time() - self.t0, 2),
             "violations": nviol,
         }
-        (EVID / f"{self.pid}.json").write_text(json.dumps(ev, indent=1, default=str) + "\n")
+        evid = EVID if not self.pid.startswith("X") else ROOT / "evidence_extra"   # extras stay out of evidence/
+        evid.mkdir(exist_ok=True)
+        (evid / f"{self.pid}.json").write_text(json.dumps(ev, indent=1, default=str) + "\n")
 
 
 def _m(have, want) -> bool:
